@@ -254,6 +254,27 @@ func c07OnlyExpiredAs(c *Ctx, m *Module, ruleExp, ruleKey string) {
 			strings.HasPrefix(kd, "(time.Time).Format((*internal/upload.uploader).counterDateSpan(") && strings.Contains(kd, `#1, "2006-01-02")`), "got "+kd)
 	}
 	r.Check(ruleExp, "reports/has the per-week append", m.Pos(rep.Pos()), n == 1, fmt.Sprintf("%d append sites", n))
+	// the grouping tables are keyed by a file's own end date and nothing else: every update of a map
+	// made in reports uses that key, and no entry is ever deleted or moved to another week
+	isLocalMap := func(v ssa.Value) bool {
+		_, ok := strip(v).(*ssa.MakeMap)
+		return ok && strip(v).Parent() == rep
+	}
+	for _, in := range instrsOf(rep) {
+		switch x := in.(type) {
+		case *ssa.MapUpdate:
+			if !isLocalMap(x.Map) {
+				continue
+			}
+			kd := describe(x.Key)
+			r.Check(ruleKey, "reports/"+mapRole(x.Map)+" keyed by the file's recorded end date", m.Pos(x.Pos()),
+				strings.HasPrefix(kd, "(time.Time).Format((*internal/upload.uploader).counterDateSpan(") && strings.Contains(kd, `#1, "2006-01-02")`), "got "+shortDesc(kd))
+		case *ssa.Call:
+			if calleeName(x.Common()) == "builtin:delete" && isLocalMap(x.Call.Args[0]) {
+				r.Check(ruleKey, "reports/"+mapRole(x.Call.Args[0])+" entry removed", m.Pos(x.Pos()), false, "a week's files stay under the week named by their end date; nothing removes or regroups them")
+			}
+		}
+	}
 	// createReport and deleteFiles receive exactly those lists
 	for _, cs := range callsIn(rep, "(*internal/upload.uploader).createReport") {
 		d := describeArg(cs, 3)
@@ -597,4 +618,15 @@ func c07NonEmptyFlag(c *Ctx, m *Module) {
 			"the flag that decides whether the week gets a report must be false initially and only ever set to true inside the loop: "+bad)
 	}
 	r.Check("C07.accumulate", "createReport/has the non-empty flag", m.Pos(cr.Pos()), n == 1, fmt.Sprintf("%d flags guard a rejecting return after the fold loop", n))
+}
+
+// mapRole: "list table" for a map of slices, "table" otherwise (used in obligation keys).
+func mapRole(v ssa.Value) string {
+	if mt, ok := v.Type().Underlying().(*types.Map); ok {
+		if _, isSl := mt.Elem().Underlying().(*types.Slice); isSl {
+			return "per-week list table"
+		}
+		return "per-week " + strings.TrimPrefix(types.TypeString(mt.Elem(), nil), "time.") + " table"
+	}
+	return "table"
 }
